@@ -142,22 +142,22 @@ type Part struct {
 
 // PartReport is what a part contributes to the evidence.
 type PartReport struct {
-	Name        string                 `json:"name"`
-	States      int64                  `json:"states"`
-	Nontrivial  int64                  `json:"distinct_nontrivial"`
-	Transitions int64                  `json:"transitions"`
-	Evaluations int64                  `json:"evaluations"`
-	Validated   int64                  `json:"traces_validated_against_impl"`
-	Exhaustive  bool                   `json:"exhaustive"`
-	Bounds      map[string]interface{} `json:"bounds,omitempty"`
+	Name        string                      `json:"name"`
+	States      int64                       `json:"states"`
+	Nontrivial  int64                       `json:"distinct_nontrivial"`
+	Transitions int64                       `json:"transitions"`
+	Evaluations int64                       `json:"evaluations"`
+	Validated   int64                       `json:"traces_validated_against_impl"`
+	Exhaustive  bool                        `json:"exhaustive"`
+	Bounds      map[string]interface{}      `json:"bounds,omitempty"`
 	OpHist      map[string]map[string]int64 `json:"op_outcomes,omitempty"`
-	NeverOK     []string               `json:"ops_never_succeeded,omitempty"`
-	Samples     []interface{}          `json:"samples,omitempty"`
-	WallS       float64                `json:"wall_s"`
-	Violations  []Violation            `json:"-"`
-	KnownSeen   map[string]Violation   `json:"-"`
-	Internal    string                 `json:"internal_error,omitempty"`
-	Rule        string                 `json:"rule,omitempty"`
+	NeverOK     []string                    `json:"ops_never_succeeded,omitempty"`
+	Samples     []interface{}               `json:"samples,omitempty"`
+	WallS       float64                     `json:"wall_s"`
+	Violations  []Violation                 `json:"-"`
+	KnownSeen   map[string]Violation        `json:"-"`
+	Internal    string                      `json:"internal_error,omitempty"`
+	Rule        string                      `json:"rule,omitempty"`
 }
 
 // ConfOpts asks an exploration to bind its seam to the real transaction path afterwards (see Conformance).
@@ -165,6 +165,11 @@ type ConfOpts struct {
 	Stores     []string        // module stores compared after every committed block
 	SkipDenoms map[string]bool // denoms whose balances the full app changes on its own (x/mint inflates the bond denom)
 	MaxPaths   int             // cap on the number of depth<=2 paths replayed (quick); thorough uses 10x
+	// SignInSeam: the seam itself runs under the bytes of the signed transactions (needed where the module
+	// derives ids from ctx.TxBytes(): record, service, oracle)
+	SignInSeam bool
+	// Depth of the enumerated paths (default 2)
+	Depth int
 }
 
 // ExplorePart wraps a driver exploration as a Part.
@@ -243,7 +248,11 @@ func ExplorePartC(name string, mk func() (*Env, Driver), depthQuick, depthThorou
 				if tier == "thorough" {
 					max *= 10
 				}
-				paths := enumeratePaths(mk, 2, max)
+				pd := conf.Depth
+				if pd == 0 {
+					pd = 2
+				}
+				paths := enumeratePaths(mk, pd, max)
 				paths = append(paths, r.Samples...)
 				// split over workers: every worker validates its share on its own pair of applications
 				nw := workers
@@ -260,7 +269,7 @@ func ExplorePartC(name string, mk func() (*Env, Driver), depthQuick, depthThorou
 						for i := w; i < len(paths); i += nw {
 							mine = append(mine, paths[i])
 						}
-						results[w] = Conformance(mk, mine, conf.Stores, conf.SkipDenoms)
+						results[w] = Conformance(mk, mine, conf.Stores, conf.SkipDenoms, conf.SignInSeam)
 					}(w)
 				}
 				wg.Wait()
@@ -295,6 +304,29 @@ func ExplorePartC(name string, mk func() (*Env, Driver), depthQuick, depthThorou
 						// artefact replays by re-running this (single-worker, hence deterministic) exploration
 						v.Detail += " [observed during the exploration only: the outcome depends on what this application instance executed earlier (sibling branches / rolled-back transactions); replay re-runs the exploration]"
 						v.Path = append([]string{fmt.Sprintf("<re-explore depth=%d>", depth)}, v.Path...)
+						rep.Violations = append(rep.Violations, v)
+						continue
+					}
+					// Not reproducible by a linear replay on a fresh instance. Either the harness is not
+					// deterministic (an internal error), or the implementation keeps state outside the stores that
+					// earlier executions of this process left behind (a package-level cache, say) - then the
+					// observation is a function of the exploration history and recurs whenever the same exploration
+					// is repeated in the same order. Decide by repeating a single-worker (deterministic-order)
+					// exploration to the depth of the path twice: the same signature both times = history-dependent
+					// implementation state, kept as a violation whose replay re-runs that exploration.
+					rd := len(v.Path)
+					recurs := rd > 0 && rd <= depth
+					for i := 0; i < 2 && recurs; i++ {
+						rr := Explore(Config{Depth: rd, Workers: 1, TxSeqInCanon: txSeq, MaxViolations: 200, Seed: Seed()}, mk)
+						found := false
+						for _, x := range rr.Violations {
+							found = found || x.Sig == v.Sig
+						}
+						recurs = found
+					}
+					if recurs {
+						v.Detail += " [does not show on a linear replay from a fresh application instance, but recurs whenever the same single-worker exploration is repeated: the result depends on state this process kept from earlier executions (outside the stores); replay re-runs the exploration]"
+						v.Path = append([]string{fmt.Sprintf("<re-explore depth=%d>", rd)}, v.Path...)
 						rep.Violations = append(rep.Violations, v)
 						continue
 					}
